@@ -354,6 +354,52 @@ def main():
                                 probs.append("end() map is %s" % (sorted(fin.items()),))
                         return probs
                     drive({"serializer": label, "fields": n, "failing": bad, "field_values": vk}, steps, state, endf, judge)
+        # ---- scalar keys: KeySerializer turns every integer width into the key of the same signedness and number, bools into
+        #      bool keys, and rejects every other scalar kind
+        kmeth = {}
+        for nme, f in fns.items():
+            mk = re.match(r"^ser::<impl at [^>]*>::serialize_(bool|i8|i16|i32|i64|u8|u16|u32|u64|f32|f64|unit|none|bytes)(#\d+)?$", nme)
+            if mk and f.args and f.args[0].endswith(": KeySerializer"):
+                kmeth[mk.group(1)] = f
+        ranges = {"i8": (-2 ** 7, 2 ** 7 - 1), "i16": (-2 ** 15, 2 ** 15 - 1), "i32": (-2 ** 31, 2 ** 31 - 1), "i64": (-2 ** 63, 2 ** 63 - 1),
+                  "u8": (0, 2 ** 8 - 1), "u16": (0, 2 ** 16 - 1), "u32": (0, 2 ** 32 - 1), "u64": (0, 2 ** 64 - 1)}
+        # the narrow widths forward to the wide methods of the same serializer: a trait-qualified call resolves to the method above
+        key_dispatch = (r"^<KeySerializer as (?:serde::)?(?:ser::)?Serializer>::serialize_(\w+)$", lambda e, m, a: e.call_fn(kmeth[m.group(1)], a) if m.group(1) in kmeth else (_ for _ in ()).throw(Unsupported("KeySerializer::serialize_" + m.group(1))))
+        if key_dispatch[0] not in [x[0] for x in extern]:
+            extern.insert(0, key_dispatch)
+        for ty in ("bool", "i8", "i16", "i32", "i64", "u8", "u16", "u32", "u64", "f32", "f64", "unit", "none"):
+            if ty not in kmeth:
+                undecided.append("KeySerializer::serialize_%s not found" % ty)
+                continue
+            stats["scenarios"] += 1
+            eng = engine()
+            eng.discriminants.update({"Key::Int": 0, "Key::Uint": 1, "Key::Bool": 2, "Key::String": 3})
+            desc = {"serializer": "key", "scalar": ty}
+            v = z3.Bool("key_b") if ty == "bool" else (z3.Int("key_v") if ty in ranges else (z3.FP("key_f", z3.Float64() if ty == "f64" else z3.Float32()) if ty in ("f32", "f64") else None))
+            cons = [v >= ranges[ty][0], v <= ranges[ty][1]] if ty in ranges else []
+
+            def on_key_path(res, e, ty=ty, v=v, desc=desc):
+                good = False
+                if ty in ranges:
+                    kind = "Key::Int" if ty.startswith("i") else "Key::Uint"
+                    good = isinstance(res, tuple) and res[0] == "enum" and res[1].endswith("Ok") and res[2][0][1] == kind and not e.check(res[2][0][2][0] != v)
+                elif ty == "bool":
+                    good = isinstance(res, tuple) and res[0] == "enum" and res[1].endswith("Ok") and res[2][0][1] == "Key::Bool" and \
+                        not e.check((res[2][0][2][0] if is_sym(res[2][0][2][0]) else z3.BoolVal(res[2][0][2][0])) != v)
+                else:
+                    good = isinstance(res, tuple) and res[0] == "enum" and res[1].endswith("Err")
+                if good:
+                    stats["proved"] += 1
+                else:
+                    failures.append(dict(desc, problems=["a %s map key does not become the key of the same kind and number (or, for kinds that cannot be keys, an error): %s" % (ty, str(res)[:160])]))
+            try:
+                eng.explore(lambda e, ty=ty, v=v: e.call_fn(kmeth[ty], [("enum", "KeySerializer", [])] + ([v] if v is not None else [])), None, on_key_path, cons)
+                stats["paths"] += eng.stats["paths"]
+            except PanicFound as p:
+                failures.append(dict(desc, problems=["panic reachable: %s" % p.msg]))
+            except Unsupported as u:
+                undecided.append("%s: %s" % (json.dumps(desc), str(u)[:160]))
+            stats["functions"] |= eng.stats["functions"]
         # ---- the Duration wrapper: SerializeTimestamp::end assembles secs + nanos into a chrono duration
         MAXMS = 2 ** 63 - 1
         secs, nanos = z3.Int("secs"), z3.Int("nanos")
